@@ -20,43 +20,44 @@ structure GhostEqS (s s' : Sys) : Prop where
   setEnv : s.setEnv = s'.setEnv
   slices : s.slices = s'.slices
   scopeOv : s.scopeOv = s'.scopeOv
+  od : s.od = s'.od
 
 /-- erase the ghost fields of a system. -/
 def eraseS (s : Sys) : Sys := { s with w := eraseW s.w, trail := [] }
 
-theorem GhostEqS.refl (s : Sys) : GhostEqS s s := ⟨GhostEq.refl _, rfl, rfl, rfl, rfl, rfl, rfl, rfl⟩
+theorem GhostEqS.refl (s : Sys) : GhostEqS s s := ⟨GhostEq.refl _, rfl, rfl, rfl, rfl, rfl, rfl, rfl, rfl⟩
 
 theorem GhostEqS.symm {s s' : Sys} (h : GhostEqS s s') : GhostEqS s' s :=
   ⟨h.w.symm, h.sets.symm, h.setEvents.symm, h.freed.symm, h.setWrites.symm, h.setEnv.symm, h.slices.symm,
-   h.scopeOv.symm⟩
+   h.scopeOv.symm, h.od.symm⟩
 
 theorem GhostEqS.trans {a b c : Sys} (h1 : GhostEqS a b) (h2 : GhostEqS b c) : GhostEqS a c :=
   ⟨h1.w.trans h2.w, h1.sets.trans h2.sets, h1.setEvents.trans h2.setEvents, h1.freed.trans h2.freed,
    h1.setWrites.trans h2.setWrites, h1.setEnv.trans h2.setEnv, h1.slices.trans h2.slices,
-   h1.scopeOv.trans h2.scopeOv⟩
+   h1.scopeOv.trans h2.scopeOv, h1.od.trans h2.od⟩
 
 theorem ghostEqS_erase (s : Sys) : GhostEqS s (eraseS s) :=
-  ⟨ghostEq_erase s.w, rfl, rfl, rfl, rfl, rfl, rfl, rfl⟩
+  ⟨ghostEq_erase s.w, rfl, rfl, rfl, rfl, rfl, rfl, rfl, rfl⟩
 
 /-- `GhostEqS` is exactly "equal after erasing the ghost fields". -/
 theorem ghostEqS_iff_erase (s s' : Sys) : GhostEqS s s' ↔ eraseS s = eraseS s' := by
   constructor
   · intro h
     have hw := (ghostEq_iff_erase s.w s'.w).1 h.w
-    obtain ⟨w, sets, setEvents, freed, setWrites, setEnv, trail, slices, scopeOv⟩ := s
-    obtain ⟨w', sets', setEvents', freed', setWrites', setEnv', trail', slices', scopeOv'⟩ := s'
-    obtain ⟨_, g1, g2, g3, g4, g5, g6, g7⟩ := h
-    simp only at hw g1 g2 g3 g4 g5 g6 g7
-    subst g1 g2 g3 g4 g5 g6 g7
+    obtain ⟨w, sets, setEvents, freed, setWrites, setEnv, trail, slices, scopeOv, od⟩ := s
+    obtain ⟨w', sets', setEvents', freed', setWrites', setEnv', trail', slices', scopeOv', od'⟩ := s'
+    obtain ⟨_, g1, g2, g3, g4, g5, g6, g7, g8⟩ := h
+    simp only at hw g1 g2 g3 g4 g5 g6 g7 g8
+    subst g1 g2 g3 g4 g5 g6 g7 g8
     simp only [eraseS, hw]
   · intro h
     have e : ∀ {α : Type} (f : Sys → α), f (eraseS s) = f (eraseS s') := fun f => congrArg f h
     exact ⟨(ghostEq_iff_erase _ _).2 (e Sys.w), e Sys.sets, e Sys.setEvents, e Sys.freed, e Sys.setWrites,
-      e Sys.setEnv, e Sys.slices, e Sys.scopeOv⟩
+      e Sys.setEnv, e Sys.slices, e Sys.scopeOv, e Sys.od⟩
 
 /-- arming a crash point (and resetting the per-pass ghost state) changes ghost fields only. -/
 theorem arm_ghost (s : Sys) (budget : Option Nat) : GhostEqS (arm s budget) s :=
-  ⟨⟨rfl, rfl, rfl, rfl, rfl, rfl, rfl, rfl, rfl⟩, rfl, rfl, rfl, rfl, rfl, rfl, rfl⟩
+  ⟨⟨rfl, rfl, rfl, rfl, rfl, rfl, rfl, rfl, rfl⟩, rfl, rfl, rfl, rfl, rfl, rfl, rfl, rfl⟩
 
 /-- a step `Sys → Sys × α` on two systems: ghost-equal systems afterwards, the same result. -/
 def RelS {α : Type} (x y : Sys × α) : Prop := GhostEqS x.1 y.1 ∧ x.2 = y.2
@@ -75,27 +76,27 @@ theorem RelS.elim {α : Type} {x y : Sys × α} (h : RelS x y) :
 /-- replacing the world by a ghost-equal one. -/
 theorem withW_ghost {s s' : Sys} (h : GhostEqS s s') {w w' : World} (hw : GhostEq w w') :
     GhostEqS { s with w := w } { s' with w := w' } :=
-  ⟨hw, h.sets, h.setEvents, h.freed, h.setWrites, h.setEnv, h.slices, h.scopeOv⟩
+  ⟨hw, h.sets, h.setEvents, h.freed, h.setWrites, h.setEnv, h.slices, h.scopeOv, h.od⟩
 
 theorem withSetEvents_ghost {s s' : Sys} (h : GhostEqS s s') (e : SetEvent) :
     GhostEqS { s with setEvents := s.setEvents ++ [e] } { s' with setEvents := s'.setEvents ++ [e] } :=
-  ⟨h.w, h.sets, by simp only [h.setEvents], h.freed, h.setWrites, h.setEnv, h.slices, h.scopeOv⟩
+  ⟨h.w, h.sets, by simp only [h.setEvents], h.freed, h.setWrites, h.setEnv, h.slices, h.scopeOv, h.od⟩
 
 theorem withFreed_ghost {s s' : Sys} (h : GhostEqS s s') (n : String) :
     GhostEqS { s with freed := s.freed ++ [n] } { s' with freed := s'.freed ++ [n] } :=
-  ⟨h.w, h.sets, h.setEvents, by simp only [h.freed], h.setWrites, h.setEnv, h.slices, h.scopeOv⟩
+  ⟨h.w, h.sets, h.setEvents, by simp only [h.freed], h.setWrites, h.setEnv, h.slices, h.scopeOv, h.od⟩
 
 /-! ### the ghost bookkeeping and the write primitives -/
 
 /-- `note` only touches the ghost trail. -/
-theorem note_ghost_self (s : Sys) : GhostEqS s s.note := ⟨GhostEq.refl _, rfl, rfl, rfl, rfl, rfl, rfl, rfl⟩
+theorem note_ghost_self (s : Sys) : GhostEqS s s.note := ⟨GhostEq.refl _, rfl, rfl, rfl, rfl, rfl, rfl, rfl, rfl⟩
 
 theorem note_ghost {s s' : Sys} (h : GhostEqS s s') : GhostEqS s.note s'.note :=
   (note_ghost_self s).symm.trans (h.trans (note_ghost_self s'))
 
 theorem setSet_ghost {s s' : Sys} (h : GhostEqS s s') (n : String) (o : Option OSet) :
     GhostEqS (s.setSet n o) (s'.setSet n o) :=
-  ⟨h.w, by simp only [Sys.setSet, h.sets], h.setEvents, h.freed, h.setWrites, h.setEnv, h.slices, h.scopeOv⟩
+  ⟨h.w, by simp only [Sys.setSet, h.sets], h.setEvents, h.freed, h.setWrites, h.setEnv, h.slices, h.scopeOv, h.od⟩
 
 /-- bumping the store-wide resourceVersion counter. -/
 theorem bumpStore_ghost {w w' : World} (h : GhostEq w w') :
@@ -183,7 +184,7 @@ theorem foldl_applySetEnv_ghost (l : List (Nat × SetEnvOp)) :
 theorem beforeSetWrite_ghost {s s' : Sys} (h : GhostEqS s s') : GhostEqS s.beforeSetWrite s'.beforeSetWrite := by
   simp only [Sys.beforeSetWrite, h.setEnv, h.setWrites]
   have h1 := foldl_applySetEnv_ghost (s'.setEnv.filter (·.1 = s'.setWrites)) h
-  exact ⟨h1.w, h1.sets, h1.setEvents, h1.freed, by simp only [h1.setWrites], h1.setEnv, h1.slices, h1.scopeOv⟩
+  exact ⟨h1.w, h1.sets, h1.setEvents, h1.freed, by simp only [h1.setWrites], h1.setEnv, h1.slices, h1.scopeOv, h1.od⟩
 
 /-- **`Sys.lockedWrite` does not read the ghost state**: ghost-equal systems afterwards, the same
 response. -/
